@@ -4,7 +4,11 @@ Started with its own PYTHONHASHSEED.
 
 `paramworker.py --unpickle in.pkl out.json`: the receiving end of a cross-interpreter pickle round trip (C15).
 in.pkl holds [{spec, key, deps, blobs: [(protocol, bytes)]}]: tasks that were built, HASHED and pickled in the
-sending interpreter.  Each copy is compared here with an equal task freshly built from the same spec."""
+sending interpreter.  Each copy is compared here with an equal task freshly built from the same spec.
+
+`paramworker.py --relstore in.json out.json`: C09 store cases whose storage directory is given as a RELATIVE path and whose
+history changes the working directory (props/c09.py run_store, `rel`); in.json holds [case], out.json gets
+[[violations, facts]] per case.  A child interpreter, so that the chdir does not leak into the harness."""
 import json
 import sys
 
@@ -75,8 +79,25 @@ def unpickle_main(inp, outp):
     json.dump(out, open(outp, 'w'))
 
 
+def relstore_main(inp, outp):
+    import paramrun
+    from props import c09
+    paramrun.quiet()
+    out = []
+    for case in json.load(open(inp)):
+        try:
+            v, _, facts = c09.run_store(case, want_model=False, in_child=True)
+        except Exception as e:
+            # never crash on what the code under test does: it is a finding about the code
+            v, facts = [dict(what=f'building / saving the store raised {type(e).__name__}: {e}'[:200], replay=dict(kind='store', case=case))], {}
+        out.append([v, dict(facts)])
+    json.dump(out, open(outp, 'w'))
+
+
 if __name__ == '__main__':
     if sys.argv[1] == '--unpickle':
         unpickle_main(sys.argv[2], sys.argv[3])
+    elif sys.argv[1] == '--relstore':
+        relstore_main(sys.argv[2], sys.argv[3])
     else:
         main()
